@@ -339,6 +339,10 @@ def simp1(t):
         return None
     if k == 'call':
         f, args = t[1], t[2]
+        fname = f[1] if f[0] == 'sym' else (f[2] if (f[0] == 'attr' and f[1] == ('sym', 'itertools')) else None)
+        if fname == 'chain' and args and not (len(t) > 3 and t[3]) and all(a[0] in ('list', 'tuple', 'comp', 'cat', 'accum') for a in args):
+            # itertools.chain(a, b, ...) of list-valued pieces: their concatenation
+            return ('cat', tuple(('list', a[1]) if a[0] == 'tuple' else a for a in args))
         if f[0] == 'call' and len(args) == 1 and len(f[2]) == 1 and f[2][0][0] == 'const' and not (len(f) > 3 and f[3]) and not (len(t) > 3 and t[3]):
             g_ = f[1]
             gname = g_[1] if g_[0] == 'sym' else (g_[2] if g_[0] == 'attr' and g_[1] == ('sym', 'operator') else None)
